@@ -3,7 +3,7 @@ CONSTANTS
   MaxNodes = 20
   MaxT = 9
   NExp = 3
-  MaxLevel = 10
+  MaxLevel = 100000
 CONSTANT Timers <- TimerSet
 INIT Init
 NEXT Next
